@@ -320,7 +320,8 @@ def gen_c18(rng: random.Random) -> dict:
             trig = {"on": "state", "match": {"new": pick(rng, ["SOCKET_OPENED", "CONNECTED"])}, "nth": rng.randint(1, 3), "delay": pick(rng, [0.0, 0.5])}
         events.append({"at": trig, "do": "fault", "kind": "mdns", "records": [rec], "phase": pick(rng, ["pre", "post"])})
     # control script
-    steps: list[dict] = [{"do": "rl.new", "name": None if use_mdns_addr else name, "zeroconf": None, "cb_delay": pick(rng, [{}, {}, {"error": 0.3}, {"disconnect": 0.7, "connect": 0.2}, {"error": 1.0, "disconnect": 0.1}])}, {"do": "rl.start"}]
+    rl_zc = pick(rng, [None, None, "zeroconf", "async"]) if client["zeroconf"] is None else None
+    steps: list[dict] = [{"do": "rl.new", "name": None if use_mdns_addr else name, "zeroconf": rl_zc, "cb_delay": pick(rng, [{}, {}, {"error": 0.3}, {"disconnect": 0.7, "connect": 0.2}, {"error": 1.0, "disconnect": 0.1}])}, {"do": "rl.start"}]
     ends_started = True
     tt = 0.0
     for _ in range(rng.randint(0, 3)):
@@ -332,6 +333,10 @@ def gen_c18(rng: random.Random) -> dict:
         tt += dt
         steps.append({"do": "sleep", "d": dt})
         steps.append({"do": "rl.start"})
+        if rng.random() < 0.2:
+            # start() while already started (connecting, waiting or connected): must change nothing
+            steps.append({"do": "sleep", "d": pick(rng, [0.0, 0.3, 4.0])})
+            steps.append({"do": "rl.start"})
     if rng.random() < 0.3:
         steps.append({"do": "sleep", "d": max(0.0, T - tt) + pick(rng, [0.0, 10.0, 70.0])})
         steps.append({"do": "rl.stop"})
